@@ -703,32 +703,9 @@ def r32_gridsib(repo, sink):
         sink.check(ok, "R32", "cell_axes-midpoints", ca, ok="cell axes are the midpoints of neighbouring nodes", bad=f"cell_axes computes {got!r}, not (ax[:-1] + ax[1:]) / 2")
     except (Raised, Undecided, AnalysisError) as exc:
         sink.unknown("R32", "cell_axes-midpoints", ca, f"cell_axes outside vocabulary: {exc}")
-    # both data_location setters validate against valid_locations
-    n = 0
-    for k in repo.subclasses(repo.cls("Grid")):
-        st = k.setters.get("data_location")
-        if st is None or any("abstractmethod" in U(d) for d in st.node.decorator_list):
-            continue
-        n += 1
-        sink.check("_check_location(self, data_location)" in U(st.node), "R32", f"location-checked:{k.name}", st,
-                   ok="data_location is validated against valid_locations", bad=f"{k.name}.data_location setter skips the valid_locations check")
-    sink.floor("R32", "data_location setters", n, 2)
-    cl = repo.func("src/finam/data/grid_spec.py", "_check_location")
-    sink.check("valid_locations" in U(cl.node) and "raise" in U(cl.node), "R32", "check-location", cl, ok="_check_location raises for invalid locations", bad="_check_location does not refuse invalid locations")
-    # casts forward every layout field
-    for cname, meth, fields in (
-        ("RectilinearGrid", "to_unstructured", ("points", "cells", "cell_types", "data_location", "order", "axes_attributes", "axes_names", "crs")),
-        ("UniformGrid", "to_rectilinear", ("axes", "data_location", "order", "axes_reversed", "axes_attributes", "axes_names", "crs")),
-    ):
-        if not repo.has_cls(cname):
-            continue
-        m = repo.resolve(repo.cls(cname), meth, "method")
-        if m is None:
-            continue
-        ctor = [x for x in calls(m.node) if isinstance(x.func, ast.Name) and x.func.id[0].isupper()]
-        got = {k.arg: U(k.value) for x in ctor for k in x.keywords}
-        missing = [f for f in fields if got.get(f) != f"self.{f}"]
-        sink.check(not missing and bool(ctor), "R32", f"cast:{cname}.{meth}", m, ok="cast forwards every layout field", bad=f"{cname}.{meth} does not forward {missing}")
+    # data-location validation, casts, gen_points and order_map: abstract runs in rules/grid2.py
+    from . import grid2
+    grid2.r32p(repo, sink)
 
 
 # ========================================================================== R32b
@@ -786,14 +763,6 @@ class _IdxInterp(FinamInterp):
 def r32b_indexspace(repo, sink):
     gt = "src/finam/data/grid_tools.py"
     om = repo.func(gt, "order_map")
-    # order_map itself: arange(size).reshape(shape, order=of).reshape(-1, order=to)
-    rets = [r for r in fn_walk(om.node) if isinstance(r, ast.Return)]
-    ok = False
-    if len(rets) == 1:
-        t = U(rets[0].value).replace(" ", "")
-        ok = ".reshape(shape,order=of).reshape(-1,order=to)" in t and "arange(size" in t
-    sink.check(ok, "R32", "order_map-definition", om, ok="order_map = arange(size).reshape(shape, of).reshape(-1, to)",
-               bad="order_map no longer reshapes arange(size) from `of` to `to` (of/to swapped or changed)")
     gc = repo.func(gt, "gen_cells")
     tails = [n for n in gc.node.body if isinstance(n, ast.If) and "order" in U(n.test) and "'C'" in U(n.test)]
     if len(tails) != 1:
@@ -813,20 +782,17 @@ def r32b_indexspace(repo, sink):
                  "k-th cell of the data layout (cell centres / cell data permuted for non-square grids)")
     except (AnalysisError, Undecided, Raised) as exc:
         sink.unknown("R32", "gen_cells-reorder", gc, f"re-ordering block outside vocabulary: {exc}")
-    # the F-order path must not re-order
-    sink.check(U(tails[0].test).replace(" ", "").startswith("order=='C'"), "R32", "gen_cells-F-untouched", gc,
-               ok="re-ordering only for C order", bad="gen_cells re-orders cells for other orders than C")
-    # gen_points: all three coordinate columns are flattened in the requested order
-    gp = repo.func(gt, "gen_points")
-    rs = [x for x in calls(gp.node, "reshape")]
-    ok = len(rs) == 3 and all({k.arg: U(k.value) for k in x.keywords}.get("order") == "order" for x in rs)
-    cols = sorted(U(x.func.value) for x in rs)
-    sink.check(ok and cols == ["x_id", "y_id", "z_id"], "R32", "gen_points-order", gp, ok="x, y, z index grids are flattened in the same requested order",
-               bad="gen_points flattens the coordinate index grids in different orders")
-    t = U(gp.node)
-    sink.check("points[:, 0] = axes[0][x_id" in t and "points[:, 1] = axes[1][y_id" in t and "points[:, 2] = axes[2][z_id" in t, "R32", "gen_points-columns", gp,
-               ok="column k takes axis k at the k-th index grid", bad="gen_points pairs an axis with another axis' index grid")
-    sink.check("axes[i] = axes[i][::-1]" in t and "if not inc:" in t, "R32", "gen_points-direction", gp, ok="decreasing axes are reversed", bad="gen_points ignores axes_increase")
+    # the F-order path must not re-order: the block's condition, evaluated for order 'F', is false
+    t = tails[0].test
+    try:
+        vals = []
+        for md in (1, 2, 3):
+            it2 = _IdxInterp(repo)
+            vals.append(bool(it2.truth(it2.eval(t, {"order": "F", "mesh_dim": md, "__mod__": gc.module}, gc.module), t)))
+        sink.check(not any(vals), "R32", "gen_cells-F-untouched", gc, ok="re-ordering only for C order",
+                   bad="gen_cells re-orders cells for other orders than C")
+    except (AnalysisError, Undecided, Raised, KeyError) as exc:
+        sink.unknown("R32", "gen_cells-F-untouched", gc, f"condition of the re-ordering block `{U(t)}` outside vocabulary: {exc}")
 
 
 # ========================================================================== R32c
